@@ -1,0 +1,14 @@
+//go:build verif
+
+// Contracts for package duration, read by the verification-condition generator in
+// /verif (govc).  Comment-only.  durstr(d) is the identity of time.Duration(d).String();
+// that time.ParseDuration reads that text back to d is a property of package time (assumed).
+
+package duration
+
+// A duration is saved as exactly its standard text form, which is what UnmarshalJSON parses.
+//@ props C17 C16
+//@ func Duration.MarshalJSON
+//@   nopanic
+//@   pure
+//@   ensures [C17] result1 == nil ==> sid(result0) == jsonenc(durstr(d))
